@@ -23,7 +23,7 @@ INFO = {
     "C02": ("rapid PBT + exhaustive boundary cross product: kind x value x comparison value x literal spelling, oracle computed by construction (math/big-checked spellings)",
             "generated boundary/spelling cross product with a by-construction oracle",
             "§4 C02"),
-    "C03": ("rapid PBT, metamorphic: outcome of `A and B`, `A or B`, `not A`, De Morgan and double negation against the 3x3 table of the parts' own outcomes; chains of up to 48 operands of planted outcome against the left-to-right fold; left-nested trees 1-14 levels deep against the table applied bottom-up; one evaluator over streams of 300-300000 documents then all outcome patterns",
+    "C03": ("rapid PBT, metamorphic: outcome of `A and B`, `A or B`, `not A`, De Morgan and double negation against the 3x3 table of the parts' own outcomes; chains of up to 48 operands of planted outcome against the left-to-right fold; left-nested trees 1-14 levels deep against the table applied bottom-up; one evaluator over streams of 300-300000 documents then all outcome patterns; leaves whose evaluation makes the caller's hook panic (unreached operands are not evaluated)",
             "metamorphic relation (composite vs. parts) over generated sub-expressions",
             "§4 C03"),
     "C04": ("rapid PBT, metamorphic: each negated operator vs. its positive form, contains vs. in, not(...) wrappers, on generated (selector, literal, datum) triples and on Go values outside the universe (time.Time, IsZero/Len/Equal types, interfaces with methods)",
@@ -32,13 +32,13 @@ INFO = {
     "C05": ("rapid PBT + exhaustive miss-class cross product: planted absent keys/fields/indices, table oracle, reference interpreter, unknown-value substitution metamorphic, confusable selectors (paths that read alike when joined) used together",
             "generated planted-miss cases against the documented table and a substitution metamorphic relation",
             "§4 C05"),
-    "C06": ("rapid PBT: quantifiers over generated collections, reference interpreter plus unrolling into or/and chains, binding/shadowing cases; exhaustive fold over typed primitive collections of length 0-3 against per-element outcomes; long collections with index/element pairing",
+    "C06": ("rapid PBT: quantifiers over generated collections, reference interpreter plus unrolling into or/and chains, binding/shadowing cases; exhaustive fold over typed primitive collections of length 0-3 against per-element outcomes; long collections with index/element pairing; folds abandoned by a panic of the caller's hook",
             "reference interpreter + unrolling metamorphic relation over generated collections",
             "§4 C06"),
-    "C07": ("rapid PBT, metamorphic: same path in dotted / bracket / backtick / JSON-Pointer spellings must parse to the same path and evaluate identically; confusable selectors used together inside and outside quantifier bodies",
+    "C07": ("rapid PBT, metamorphic: same path in dotted / bracket / backtick / JSON-Pointer spellings must parse to the same path and evaluate identically; confusable selectors used together inside and outside quantifier bodies; exhaustive odd parts (\"-\", signed/padded/hex digits, empty, ~ . * #) under every container kind",
             "metamorphic relation over generated selector spellings",
             "§4 C07"),
-    "C08": ("rapid PBT, two-run non-interference: twin data differing only in hidden/unexported fields must give identical Evaluate and Filter results; structs of 65-300 fields with hidden fields at drawn positions",
+    "C08": ("rapid PBT, two-run non-interference: twin data differing only in hidden/unexported fields must give identical Evaluate and Filter results; structs of 65-300 fields with hidden fields at drawn positions; same-named struct types from different scopes",
             "non-interference (twin data) over generated struct shapes",
             "§4 C08"),
     "C09": ("exhaustive operator x kind x wrapper x literal matrix plus rapid PBT over the whole reflect universe; plus Go values outside the universe (interfaces with methods as map keys/elements/fields, library types); invariant: no panic, error implies false",
@@ -53,10 +53,10 @@ INFO = {
     "C12": ("rapid PBT under the Go race detector: fresh shared evaluator/filter, k goroutines, results compared with sequential results; concurrent creation from never-used texts (valid, invalid, budgeted) compared with creation afterwards; cold start: each case in a fresh child process whose first calls are concurrent",
             "race-detector run of generated concurrent histories + sequential-equivalence oracle",
             "§4 C12"),
-    "C13": ("rapid stateful PBT: call histories on one evaluator/filter (incl. the caller updating the datum in place between calls) compared call-by-call with fresh instances and with the history-free reference interpreter; datum snapshots before/after; result aliasing; Expression() round trip, incl. families of evaluators whose texts differ only in layout; histories of up to 300000 calls; declared container types",
+    "C13": ("rapid stateful PBT: call histories on one evaluator/filter (incl. the caller updating the datum in place between calls) compared call-by-call with fresh instances and with the history-free reference interpreter; datum snapshots before/after; result aliasing; Expression() round trip, incl. families of evaluators whose texts differ only in layout; histories of up to 300000 calls; declared container types; data with consumable state (readers, buffers, channels, counting methods)",
             "stateful model-based PBT (fresh-instance model) with deep snapshots",
             "§4 C13"),
-    "C14": ("rapid PBT with repetition: order-sensitive map quantifiers/filters evaluated r=200 times and on rebuilt data; all outcomes identical; maps holding several views of one object",
+    "C14": ("rapid PBT with repetition: order-sensitive map quantifiers/filters evaluated r=200 times and on rebuilt data; all outcomes identical; maps holding several views of one object; maps with NaN keys",
             "repetition of generated order-sensitive cases (determinism invariant)",
             "§4 C14"),
     "C15": ("exhaustive token sequences + rapid grammar renderings and mutations, differential against an independent hand-written PEG recogniser/AST builder; concurrent schedules of parses compared with their sequential outcomes",
@@ -65,13 +65,13 @@ INFO = {
     "C16": ("rapid PBT round trip: render(own AST, all layouts) -> grammar.Parse == expected AST; literal fidelity by evaluation on {X: s}; round trips run in 4-8 goroutines at once",
             "print-then-parse round trip over generated trees and strings",
             "§4 C16"),
-    "C17": ("rapid PBT: Filter.Execute compared element-wise with a separate evaluator; type, order, identity, error, purity, idempotence, partition; containers of up to 70000 elements",
+    "C17": ("rapid PBT: Filter.Execute compared element-wise with a separate evaluator; type, order, identity, error, purity, idempotence, partition; containers of up to 70000 elements; maps with keys that are not equal to themselves (NaN)",
             "element-wise differential + algebraic laws over generated containers",
             "§4 C17"),
-    "C18": ("rapid PBT: option multisets/permutations; permutation invariance, last-wins, neutral settings, hook effect vs reference interpreter",
+    "C18": ("rapid PBT: option multisets/permutations; permutation invariance, last-wins, neutral settings, hook effect vs reference interpreter; option slices and option values re-used by the caller",
             "metamorphic relations over generated option lists",
             "§4 C18"),
-    "C19": ("rapid PBT: ExpressionDump of parser-produced trees vs an independent reference renderer, byte-equal; repeatability",
+    "C19": ("rapid PBT: ExpressionDump of parser-produced trees vs an independent reference renderer, byte-equal, into every kind of writer; repeatability",
             "differential against an independent reference renderer",
             "§4 C19"),
     "C20": ("differential: a second parser generated at check time from grammar.peg (pegc: rule table read from the .peg, code blocks compiled verbatim) vs grammar.Parse on grammar-derived inputs, token sequences, long shapes, rune sweeps and native fuzzing; accept/reject, tree, exact error text and number of expression nodes entered must agree; per-node coverage of the .peg reported",
